@@ -1,10 +1,117 @@
 package main
 
 import (
+	"encoding/json"
+	"flag"
 	"fmt"
-	_ "golang.org/x/tools/go/packages"
-	_ "golang.org/x/tools/go/ssa"
-	_ "golang.org/x/tools/go/ssa/ssautil"
+	"os"
+	"regexp"
+	"sort"
+	"strings"
+	"time"
+
+	"verif/engine/gosym"
 )
 
-func main() { fmt.Println("ok") }
+type output struct {
+	Harnesses []*gosym.HarnessSummary `json:"harnesses"`
+	LoadS     float64                 `json:"load_s"`
+	WallS     float64                 `json:"wall_s"`
+	Queries   int                     `json:"solver_queries"`
+	Sat       int                     `json:"solver_sat"`
+	Unsat     int                     `json:"solver_unsat"`
+	Unknown   int                     `json:"solver_unknown"`
+	SolverS   float64                 `json:"solver_s"`
+	Solver    string                  `json:"solver"`
+	Stubs     []string                `json:"stubs_used"`
+	Error     string                  `json:"error,omitempty"`
+	Tier      string                  `json:"tier"`
+}
+
+func main() {
+	repo := flag.String("repo", "/repo", "repository root")
+	hdir := flag.String("harness", "/verif/harness", "harness directory")
+	pkgs := flag.String("pkgs", "", "comma separated package patterns (relative to repo)")
+	run := flag.String("run", "Verif_", "regexp selecting harness functions")
+	known := flag.String("known", "", "known findings file (JSON lines)")
+	out := flag.String("out", "", "output JSON file")
+	workers := flag.Int("workers", 16, "parallel workers")
+	tier := flag.String("tier", "quick", "quick|thorough")
+	solver := flag.String("solver", "z3", "z3|z3-new|cvc5")
+	timeout := flag.Int("timeout", 20000, "per-query solver timeout (ms)")
+	maxPaths := flag.Int("maxpaths", 0, "override path bound")
+	verbose := flag.Bool("v", false, "verbose")
+	flag.Parse()
+
+	res := &output{Tier: *tier, Solver: *solver}
+	fail := func(err error) {
+		res.Error = err.Error()
+		write(*out, res)
+		fmt.Fprintln(os.Stderr, "gosym:", err)
+		os.Exit(2)
+	}
+	start := time.Now()
+	prog, err := gosym.Load(*repo, *hdir, strings.Split(*pkgs, ","))
+	if err != nil {
+		fail(err)
+	}
+	res.LoadS = time.Since(start).Seconds()
+	re, err := regexp.Compile(*run)
+	if err != nil {
+		fail(err)
+	}
+	fns := prog.Harnesses(re)
+	if len(fns) == 0 {
+		fail(fmt.Errorf("no harness matches %q", *run))
+	}
+	opt := gosym.DefaultOptions()
+	opt.Workers = *workers
+	opt.Solver = *solver
+	opt.SolverTimeout = *timeout
+	if *maxPaths > 0 {
+		opt.MaxPaths = *maxPaths
+	}
+	r := &gosym.Run{Prog: prog, Opt: opt, Tier: *tier}
+	if *known != "" {
+		if b, err := os.ReadFile(*known); err == nil {
+			for _, line := range strings.Split(string(b), "\n") {
+				line = strings.TrimSpace(line)
+				if line == "" || strings.HasPrefix(line, "#") {
+					continue
+				}
+				var k gosym.KnownEntry
+				if err := json.Unmarshal([]byte(line), &k); err != nil {
+					fail(fmt.Errorf("known findings: %v", err))
+				}
+				r.Known = append(r.Known, k)
+			}
+		}
+	}
+	hs := r.Explore(fns)
+	for _, h := range hs {
+		s := h.Summary()
+		res.Harnesses = append(res.Harnesses, s)
+		if *verbose {
+			fmt.Fprintf(os.Stderr, "%-44s paths=%-6d obl=%d/%d viol=%d known=%d inconcl=%v unsupp=%v %.1fs\n", s.Name, s.Paths, s.Discharged, s.Obligations,
+				len(s.Violations), len(s.KnownHits), s.Inconclusive, s.Unsupported, s.WallS)
+		}
+	}
+	res.Queries, res.Sat, res.Unsat, res.Unknown = r.SolverQueries, r.SolverSat, r.SolverUnsat, r.SolverUnknown
+	res.SolverS = r.SolverTime.Seconds()
+	for s := range gosym.StubsUsed {
+		res.Stubs = append(res.Stubs, s)
+	}
+	sort.Strings(res.Stubs)
+	res.WallS = time.Since(start).Seconds()
+	write(*out, res)
+}
+
+func write(path string, res *output) {
+	b, _ := json.MarshalIndent(res, "", " ")
+	if path == "" {
+		os.Stdout.Write(b)
+		fmt.Println()
+		return
+	}
+	os.WriteFile(path, b, 0o644)
+}
